@@ -47,6 +47,9 @@ func Style(st tcell.Style) []interface{} {
 	if ok {
 		return t
 	}
+	if st == tcell.StyleDefault {
+		return intent{}.tuple()
+	}
 	v := reflect.ValueOf(st)
 	fg := tcell.Color(field(v, "fg").Uint())
 	bg := tcell.Color(field(v, "bg").Uint())
